@@ -3,12 +3,44 @@
 # a shortest word sequence and the typed prefixes to try; the real bash answers; impl -> spec: BashCheck.tla
 # validates every recorded (reply, rc) against Words.tla.
 import json, time, random
-import core, corpus, bashflow, bashdrv
+import core, corpus, bashflow, bashdrv, gen
 
 KINDS = ("rc", "reply")
 
 
+def families():
+    """hand-listed shapes that need something specific: the same word-break character twice in a word, same-shaped within-word
+    expressions whose `||` levels sit at different literal indexes, a within-word expression in an earlier `||` branch than plain
+    literals, commands inside words behind definitions"""
+    from gen import L, R, C
+    w = lambda pre, vals: ("sub", [L(pre), ("alt", [L(v) for v in vals])])
+    fbw = lambda pre, vals: ("sub", [L(pre), ("fb", [L(v) for v in vals])])
+    out = [
+        ([("alt", [("sub", [L("--env="), ("alt", [w("PATH=", ["bin", "sbin"]), w("HOME=", ["root", "user"])])]), L("key=val=one"), L("key=val=two"), L("plain")])], []),
+        ([("seq", [("alt", [L("a:b:c"), L("a:b:d"), w("x:y:", ["1", "2"])]), L("end")])], []),
+        ([("seq", [("alt", [fbw("--a=", ["foo", "bar"]), fbw("--b=", ["baz", "qux"])]), L("end")])], []),
+        ([("alt", [fbw("--aa=", ["foo", "ba"]), fbw("--bb=", ["ba", "foo"])])], []),
+        ([("fb", [w("--color=", ["always", "never"]), L("plain"), L("mono")])], []),
+        ([("seq", [L("sub"), ("fb", [w("--level=", ["1", "2", "3"]), L("quiet")]), L("end")])], []),
+        ([("many", R("OPT"))], [("OPT", "", ("alt", [("sub", [L("--x="), R("V")]), L("-y")])), ("V", "", ("alt", [C('__probe c1 p1 "$@"'), L("lit")]))]),
+        ([("seq", [("sub", [L("--opt="), ("fb", [C('__probe c1 p1 "$@"'), C('__probe c2 p2 "$@"')])]), L("end")])], []),
+        ([("seq", [L("one"), ("fb", [R("U"), L("--help")])]), ("seq", [L("two"), R("U")])], [("U", "bash", C('__probe c1 p7 "$@"')), ("U", "", C('__probe c2 p2 "$@"'))]),
+        ([("seq", [L("a"), ("opt", L("b")), L("c")])], []),
+        ([("seq", [("sub", [L("--level="), ("opt", L("no-")), L("strict")]), L("end")])], []),
+    ]
+    return out
+
+
 def build_corpus(tier, seed):
+    cases, total, budgets = build_corpus_random(tier, seed)
+    fam = []
+    for i, (variants, defs) in enumerate(families()):
+        c = gen.case(variants, defs, shell="bash")
+        fam.append(corpus.annotate_bash(corpus.finish(c, 50000 + i, origin="family"), bashdrv.PROBE_CLASSES))
+    return fam + cases, total, budgets
+
+
+def build_corpus_random(tier, seed):
     rnd = random.Random(seed)
     if tier == "quick":
         rc = corpus.bash_random_cases(60, seed, bashdrv.PROBE_CLASSES)
@@ -21,15 +53,47 @@ def build_corpus(tier, seed):
     return rc + ex, total, budgets
 
 
-def run_flow(prop, cases, budgets, kinds, tier, seed, depth=4, rule="", assumptions=(), extra_probes=None, rich=False, scope=None):
+def run_flow(prop, cases, budgets, kinds, tier, seed, depth=4, rule="", assumptions=(), extra_probes=None, rich=False, scope=None, vm_budget=0):
     t0 = time.time()
     rnd = random.Random(seed)
     rec = core.record("compile", cases)
     ok = [c for c, r in zip(cases, rec) if r["obs"]["verdict"] == "ok"]
     ok = bashflow.emit_scripts(ok)
     res_w, reps = bashflow.walk(ok, depth)
-    qb = {cid: bashflow.make_queries(r, budget=budgets[0] if cid < 100000 else budgets[1], rnd=rnd, rich=rich) for cid, r in reps.items()}
+    qb = {cid: bashflow.make_queries(r, budget=budgets[0] if cid < 100000 else budgets[1], rnd=rnd, rich=rich or 50000 <= cid < 100000) for cid, r in reps.items()}
+    vmstats = {}
+    if vm_budget:
+        # the emitted program as a model (BashVM.tla) over the tables read back from each script: design-level exploration of EVERY
+        # command line to a depth against the word-level meaning; its disagreements are predictions, replayed in the real bash below
+        import vm
+        for c in ok:
+            c["vm"] = vm.tables(c["_script"], dict(bashdrv.PROBE_CLASSES, **(extra_probes or {})))
+        res_x, pred = vm.explore([c for c in ok if c.get("vm")], depth=2 if tier == "quick" else 3)
+        npred = sum(len(x) for x in pred.values())
+        per = max(4, vm_budget // max(1, len(pred)))
+        added = 0
+        for cid, lines in pred.items():
+            have = {(tuple(q["words"]), q["prefix"]) for q in qb.get(cid, [])}
+            lines = sorted(set((tuple(w), x) for w, x in lines) - have, key=lambda t: (len(t[0]), t))
+            rnd.shuffle(lines)
+            for w, x in lines[:per]:
+                qb.setdefault(cid, []).append({"words": list(w), "prefix": x, "wb": "d", "_predicted": True})
+                added += 1
+        vmstats = {"design_level_states": res_x.distinct if res_x else 0, "design_level_transitions": res_x.generated if res_x else 0,
+                   "predictions": npred, "predictions_replayed_in_bash": added, "grammars_with_predictions": len(pred)}
     records = bashflow.execute(ok, qb, extra_probes=extra_probes)
+    if vm_budget:
+        vmof = {c["id"]: c.get("vm") for c in ok}
+        for r in records:
+            r["vm"] = vmof.get(r["id"])
+        res_c, drift, nconf, nunsure = vm.conformance(records)
+        vmstats.update(conformance_checked=nconf + nunsure + len(drift), model_drift=len(drift), order_dependent=nunsure,
+                       conformance_states=res_c.distinct if res_c else 0)
+        for d in drift[:3]:
+            core.log("MODEL-DRIFT (BashVM.tla misrepresents the script; not a verdict): case %s query %s model %s real %s" % (
+                d["id"], d["qi"], json.dumps(d["model"])[:300], json.dumps(d["real"])[:200]))
+        for r in records:
+            r.pop("vm", None)
     res_v, mism, nval, nskip = bashflow.validate(records)
     byid = {r["id"]: r for r in records}
     v = core.Verdict(prop)
@@ -65,7 +129,8 @@ def run_flow(prop, cases, budgets, kinds, tier, seed, depth=4, rule="", assumpti
         samples.append({"usage": r["usage"], "line": " ".join(["cmd"] + q["words"] + [q["prefix"] + "^"]), "wb": q["wb"], "rc": q["rc"], "reply": q["reply"],
                         "calls": q["calls"]})
     distinct = {(r["usage"], tuple(q["words"]), q["prefix"], q["wb"]) for r in records for q in r["_raw"] if q["reply"] or q["rc"] != 0}
-    cov = {"states": res_w.distinct + res_v.distinct, "transitions": res_w.generated + res_v.generated,
+    cov = {"states": res_w.distinct + res_v.distinct + vmstats.get("design_level_states", 0) + vmstats.get("conformance_states", 0),
+           "transitions": res_w.generated + res_v.generated + vmstats.get("design_level_transitions", 0), "emitted_program_model": vmstats,
            "traces_validated_against_impl": nval, "skipped_open_region": nskip, "samples": samples,
            "programs": len(records), "evaluations": nq, "distinct_nontrivial": len(distinct),
            "spec_states_replayed": sum(len(x) for x in reps.values()),
@@ -84,7 +149,7 @@ def run(tier):
     core.build()
     seed = core.seed()
     cases, total, budgets = build_corpus(tier, seed)
-    return run_flow("C01", cases, budgets, KINDS, tier, seed,
+    return run_flow("C01", cases, budgets, KINDS, tier, seed, vm_budget=500 if tier == "quick" else 6000,
                     rule="seeded random grammars (prefix-free literal pool, probe commands with pairwise distinct outputs, 0-4 definitions incl. @bash) "
                          "and every tree with <= 3 nodes (4 in thorough, sampled); per grammar TLC enumerates every reachable position set of the "
                          "word-level meaning (depth <= 4 words) and the prefixes to type; a budgeted round-robin sample of them is executed in bash "
